@@ -192,3 +192,62 @@ def run(ctx, prog, res):
     f = prog.require_fn(PYO + "__repr__")
     sh = flow.shape(f, 0)
     r10.check(re.search(r"array\(Argument::new_debug\(::to_string\(p1\.inner\)\)\)", sh) is not None, {"fn": f.id, "returns": sh}, "C12.R10:repr", "__repr__ returns %s" % sh, lib.where_of(f))
+
+    # R11 ------------------------------------------------------------------------------------
+    r11 = res.rule("C12.R11", "the constructor's choice of locale, as a decision table over (timezone given, coordinates given, auto_timezone): read off the branch conditions of every path to each place where a PyLocation is built, it is the table confirmed on the pinned tree - explicit zone -> that zone (with the coordinates only when auto_timezone is on), no zone + coordinates + auto_timezone -> inferred zone, otherwise naive")
+    import pathterms
+    new = prog.require_fn(PYO + "new")
+    WANT = {("tz", "none", "auto"): "zone", ("tz", "none", "noauto"): "zone", ("tz", "coords", "noauto"): "zone", ("tz", "coords", "auto"): "zone+coords",
+            ("notz", "coords", "auto"): "inferred", ("notz", "coords", "noauto"): "naive", ("notz", "none", "auto"): "naive", ("notz", "none", "noauto"): "naive"}
+    table = {}
+    n_paths = 0
+    for bb, b in new.live_blocks():
+        for s in b["stmts"]:
+            if not (s["k"] == "assign" and s["rv"]["k"] == "agg" and str(s["rv"].get("adt", "")).endswith("PyLocation")):
+                continue
+            sh = " ".join(flow.shape(new, o, depth=5) for o in s["rv"]["ops"])
+            if s["rv"]["variant"] == "Naive":
+                kind = "naive"
+            elif "from_coords" in sh:
+                kind = "inferred"
+            elif "with_coords" in sh and "TzLocation::new(p2@Some.0)" in sh:
+                kind = "zone+coords"
+            elif sh == "TzLocation::new(p2@Some.0)":
+                kind = "zone"
+            else:
+                kind = "? " + sh[:80]
+            for path in pathterms.acyclic_paths(new, bb):
+                n_paths += 1
+                conds = []
+                for b2, op, taken, excl in pathterms.conditions(new, path):
+                    t = flow.shape_on(new, op, path, depth=6)
+                    if t == "discr(p2)":
+                        conds.append(("tz", taken, excl, {1: "tz", 0: "notz"}))
+                    elif re.fullmatch(r"discr\(Option::transpose\(Option::map\(p4, closure\[\]\)\)@Continue\.0\)", t):
+                        conds.append(("coords", taken, excl, {1: "coords", 0: "none"}))
+                    elif re.fullmatch(r"Option::unwrap_or\(p6, 1\)", t):
+                        conds.append(("auto", taken, excl, {1: "auto", 0: "noauto"}))
+                    elif "p2" in t or "p6" in t:
+                        conds.append(("?", t, None, None))
+                if any(c[0] == "?" for c in conds):
+                    r11.fail("C12.R11:ANCHOR-cond", "ANCHOR: the locale choice branches on %s, which is not one of the three recognised tests" % [c[1] for c in conds if c[0] == "?"][0], lib.where_of(new, s))
+                    continue
+                for tz in ("tz", "notz"):
+                    for co in ("coords", "none"):
+                        for au in ("auto", "noauto"):
+                            val = {"tz": tz, "coords": co, "auto": au}
+                            ok = True
+                            for var, taken, excl, names in conds:
+                                num = [k for k, v in names.items() if v == val[var]][0]
+                                if taken is not None and num not in taken:
+                                    ok = False
+                                if taken is None and num in (excl or []):
+                                    ok = False
+                            if ok:
+                                table.setdefault((tz, co, au), set()).add(kind)
+    for combo, want in sorted(WANT.items()):
+        got = sorted(table.get(combo, []))
+        r11.check(got == [want], {"timezone": combo[0] == "tz", "coords": combo[1] == "coords", "auto_timezone": combo[2] == "auto", "locale": got}, "C12.R11:%s" % "/".join(combo),
+                  "OpeningHours(timezone %s, coords %s, auto_timezone=%s) builds the locale %s; the reference is `%s`: methods no longer return what the core returns for the equivalent context (sun events computed from other coordinates / another zone)" % (
+                      "given" if combo[0] == "tz" else "missing", "given" if combo[1] == "coords" else "missing", combo[2] == "auto", got or "nothing", want), lib.where_of(new))
+    r11.check(n_paths >= 8, {"paths_to_locale_construction": n_paths}, "C12.R11:FLOOR", "FLOOR: %d paths to the construction of a PyLocation (expected at least 8)" % n_paths)
